@@ -23,6 +23,13 @@ PROGRAMS = [
     # the records they produce in plain mode must still be terminated lines
     "-printf '%p\\c\\n'", "-print , -printf 'a\\c%s\\n'",
 ]
+# every binary operator with the record-framing action on either side of a plain one (the mode decision must look at both operands),
+# and under negation / inside a group
+for _cx in ("-print0", "-printf '%p '", "-fprint A"):
+    for _op in (" ", " -o ", " , "):
+        PROGRAMS += [_cx + _op + "-print", "-print" + _op + _cx]
+    PROGRAMS += ["! " + _cx + " , -print", "( " + _cx + " , -true ) -print", "-name a , ( -print , " + _cx + " ) , -print"]
+PROGRAMS = list(dict.fromkeys(PROGRAMS))
 
 
 def action_steps(B, text):
